@@ -128,17 +128,48 @@ theorem devUnion_eq (cl : List Client) :
 
 /-! ## `vbi_proxyd_update_services` -/
 
-/-- what the callers need to know about the clients after an update: same positions, same cursors, states, ids -/
-def ClientsKept (cl cl' : List Client) : Prop :=
-  ∃ F : Client → Client, cl' = cl.map F ∧ ∀ c, (F c).backlog = c.backlog ∧ (F c).state = c.state ∧ (F c).id = c.id ∧
-    (F c).eof = c.eof
+/-- what the callers need to know about the clients after an update: same positions, states, ids; cursors
+unchanged or released -/
+def Kept (cl cl' : List Client) : Prop :=
+  cl'.length = cl.length ∧
+  ∀ (i : Nat) (c : Client), cl[i]? = some c → ∃ c' : Client, cl'[i]? = some c' ∧ c'.backlog ≤ c.backlog ∧ c'.state = c.state ∧ c'.id = c.id ∧
+    c'.eof = c.eof
 
-theorem ClientsKept.refl (cl : List Client) : ClientsKept cl cl := ⟨id, by simp, fun _ => ⟨rfl, rfl, rfl, rfl⟩⟩
+/-- the same, and the requests and grants are unchanged too -/
+def KeptG (cl cl' : List Client) : Prop :=
+  cl'.length = cl.length ∧
+  ∀ (i : Nat) (c : Client), cl[i]? = some c → ∃ c' : Client, cl'[i]? = some c' ∧ c'.backlog ≤ c.backlog ∧ c'.state = c.state ∧ c'.id = c.id ∧
+    c'.eof = c.eof ∧ c'.services = c.services ∧ c'.allServices = c.allServices
 
-theorem ClientsKept.getElem? {cl cl' : List Client} (h : ClientsKept cl cl') {i : Nat} {c : Client} (hi : cl[i]? = some c) :
-    ∃ c', cl'[i]? = some c' ∧ c'.backlog = c.backlog ∧ c'.state = c.state ∧ c'.id = c.id ∧ c'.eof = c.eof := by
-  obtain ⟨F, rfl, hF⟩ := h
-  refine ⟨F c, by rw [List.getElem?_map, hi]; rfl, hF c⟩
+theorem Kept.refl (cl : List Client) : Kept cl cl :=
+  ⟨rfl, fun _ c h => ⟨c, h, Nat.le_refl _, rfl, rfl, rfl⟩⟩
+
+theorem KeptG.refl (cl : List Client) : KeptG cl cl :=
+  ⟨rfl, fun _ c h => ⟨c, h, Nat.le_refl _, rfl, rfl, rfl, rfl, rfl⟩⟩
+
+theorem KeptG.toKept {cl cl' : List Client} (h : KeptG cl cl') : Kept cl cl' :=
+  ⟨h.1, fun i c hi => by
+    obtain ⟨c', h1, h2, h3, h4, h5, _, _⟩ := h.2 i c hi
+    exact ⟨c', h1, h2, h3, h4, h5⟩⟩
+
+theorem Kept.trans {a b c : List Client} (h1 : Kept a b) (h2 : Kept b c) : Kept a c :=
+  ⟨h2.1.trans h1.1, fun i x hi => by
+    obtain ⟨y, g1, g2, g3, g4, g5⟩ := h1.2 i x hi
+    obtain ⟨z, k1, k2, k3, k4, k5⟩ := h2.2 i y g1
+    exact ⟨z, k1, Nat.le_trans k2 g2, k3.trans g3, k4.trans g4, k5.trans g5⟩⟩
+
+theorem KeptG.trans {a b c : List Client} (h1 : KeptG a b) (h2 : KeptG b c) : KeptG a c :=
+  ⟨h2.1.trans h1.1, fun i x hi => by
+    obtain ⟨y, g1, g2, g3, g4, g5, g6, g7⟩ := h1.2 i x hi
+    obtain ⟨z, k1, k2, k3, k4, k5, k6, k7⟩ := h2.2 i y g1
+    exact ⟨z, k1, Nat.le_trans k2 g2, k3.trans g3, k4.trans g4, k5.trans g5, k6.trans g6, k7.trans g7⟩⟩
+
+theorem Kept.of_map (cl : List Client) (F : Client → Client)
+    (hF : ∀ c, (F c).backlog = c.backlog ∧ (F c).state = c.state ∧ (F c).id = c.id ∧ (F c).eof = c.eof) :
+    Kept cl (cl.map F) :=
+  ⟨by simp, fun i c hi => by
+    obtain ⟨h1, h2, h3, h4⟩ := hF c
+    exact ⟨F c, by rw [List.getElem?_map, hi]; rfl, by omega, h2, h3, h4⟩⟩
 
 theorem updClient_kept (cfg : Cfg) (req : Option Nat) (c : Client) :
     (updClient cfg req c).backlog = c.backlog ∧ (updClient cfg req c).state = c.state ∧ (updClient cfg req c).id = c.id ∧
@@ -148,41 +179,165 @@ theorem updClient_kept (cfg : Cfg) (req : Option Nat) (c : Client) :
   · exact ⟨rfl, rfl, rfl, rfl⟩
   · simp only; split <;> exact ⟨rfl, rfl, rfl, rfl⟩
 
+/-- requests and grants of two client lists agree position by position: same union, same grant facts -/
+theorem KeptG.views {cl cl' : List Client} (h : KeptG cl cl') :
+    unionV (cl'.map Client.view) = unionV (cl.map Client.view) ∧
+    ∀ (P : CState → List Nat → Nat → Prop), (∀ v ∈ cl.map Client.view, P v.state v.services v.allServices) →
+      ∀ v ∈ cl'.map Client.view, P v.state v.services v.allServices := by
+  refine ⟨?_, ?_⟩
+  · unfold unionV
+    congr 1
+    apply List.ext_getElem?
+    intro i
+    simp only [List.getElem?_map]
+    cases hi : cl[i]? with
+    | none =>
+      have : cl'[i]? = none := by
+        rw [List.getElem?_eq_none_iff] at hi ⊢
+        rw [h.1]; exact hi
+      rw [this]
+    | some c =>
+      obtain ⟨c', h1, _, h3, _, _, _, h7⟩ := h.2 i c hi
+      rw [h1]
+      have hcc : contrib c'.view = contrib c.view := by
+        unfold contrib Client.view
+        simp only [h3, h7]
+      simp only [Option.map_some, hcc]
+  · intro P hP v hv
+    obtain ⟨c', hc', rfl⟩ := List.mem_map.mp hv
+    obtain ⟨i, hi⟩ := List.mem_iff_getElem?.mp hc'
+    have hlt : i < cl.length := by rw [← h.1]; exact lt_of_getElem?_eq hi
+    have hci : cl[i]? = some cl[i] := List.getElem?_eq_getElem hlt
+    obtain ⟨c'', h1, _, h3, _, _, h6, h7⟩ := h.2 i _ hci
+    rw [hi] at h1
+    cases h1
+    have := hP cl[i].view (List.mem_map.mpr ⟨_, List.getElem_mem hlt, rfl⟩)
+    show P c'.state c'.services c'.allServices
+    rw [h3, h6, h7]; exact this
+
+theorem relLostLoop_ok (cfg : Cfg) : ∀ (fuel : Nat) (s : State) (i : Nat), Core cfg s →
+    ∃ s', relLostLoop fuel s i = .ok s' ∧ Core cfg s' ∧ devRest s'.dev = devRest s.dev ∧ KeptG s.clients s'.clients := by
+  intro fuel
+  induction fuel with
+  | zero => intro s i h; exact ⟨s, rfl, h, rfl, KeptG.refl _⟩
+  | succ fuel ih =>
+    intro s i h
+    cases hi : s.clients[i]? with
+    | none => exact ⟨s, by simp [relLostLoop, hi], h, rfl, KeptG.refl _⟩
+    | some c =>
+      by_cases hcond : (c.state == CState.forward && c.allServices == 0) = true
+      · obtain ⟨s1, hr, hc1, _, hd1, _, _, hk, hlen, hoth⟩ :=
+          releaseOwn_ok (cfg := cfg) (s := s) (i := i) (fate := Fate.grantLost) trivial h
+        obtain ⟨s', hr', hc', hd', hk'⟩ := ih s1 (i + 1) hc1
+        refine ⟨s', by simp only [relLostLoop, hi, hcond, if_true, hr]; exact hr', hc', by rw [hd', hd1], ?_⟩
+        refine KeptG.trans ⟨hlen, ?_⟩ hk'
+        intro j x hj
+        by_cases hji : j = i
+        · subst hji
+          rw [hi] at hj; cases hj
+          obtain ⟨c1, g1, g2, g3, g4, g5, g6, g7⟩ := hk c hi
+          exact ⟨c1, g1, by omega, g3, g7, g6, g5, g4⟩
+        · exact ⟨x, by rw [hoth j hji]; exact hj, Nat.le_refl _, rfl, rfl, rfl, rfl, rfl⟩
+      · obtain ⟨s', hr', hc', hd', hk'⟩ := ih s (i + 1) h
+        refine ⟨s', ?_, hc', hd', hk'⟩
+        have : (c.state == CState.forward && c.allServices == 0) = false := by simpa using hcond
+        simp only [relLostLoop, hi, this, Bool.false_eq_true, if_false]; exact hr'
+
+theorem relLost_ok {cfg : Cfg} {s : State} (h : Core cfg s) :
+    ∃ s', relLost s = .ok s' ∧ Core cfg s' ∧ devRest s'.dev = devRest s.dev ∧ KeptG s.clients s'.clients := by
+  unfold relLost
+  split
+  · exact relLostLoop_ok cfg _ s 0 h
+  · exact ⟨s, rfl, h, rfl, KeptG.refl _⟩
+
+theorem Core.started {cfg : Cfg} {s : State} (h : Core cfg s) : Core cfg (startAcq cfg s) := by
+  unfold Core views startAcq
+  have hal := allocate_alloc { s.dev with opened := true, apiKnown := true, active := 0, decScanning := cfg.scanning } s.clients h.alloc
+  have hq := allocate_q { s.dev with opened := true, apiKnown := true, active := 0, decScanning := cfg.scanning } s.clients
+  have hf := allocate_fields { s.dev with opened := true, apiKnown := true, active := 0, decScanning := cfg.scanning } s.clients
+  refine ⟨?_, ?_, hal.1, fun _ => hal.2⟩
+  · show QInv (allocate _ _).q _
+    rw [hq]; exact h.q
+  · intro v hv
+    exact (h.pc v hv).congr_dev hq (fun _ => by rw [hf.1])
+
+/-- with nobody subscribed the acquisition can be stopped: the queue is empty, no cursor is left dangling -/
+theorem Core.stopped {cfg : Cfg} {s : State} (h : Core cfg s) (hns : ∀ v ∈ views s, v.subscribed = false) :
+    Core cfg (stopAcq s) ∧ (stopAcq s).dev.opened = false ∧ (stopAcq s).clients = s.clients := by
+  unfold stopAcq
+  by_cases ho : s.dev.opened = true
+  · rw [if_pos ho]
+    have hb0 : ∀ v ∈ views s, v.backlog = 0 := by
+      intro v hv
+      by_cases hb : 0 < v.backlog
+      · have := (h.pc v hv).sub hb; rw [hns v hv] at this; cases this
+      · omega
+    have hq0 : s.dev.q = [] := by
+      apply QInv_all_zero h.q
+      intro b hb
+      obtain ⟨v, hv, rfl⟩ := List.mem_map.mp hb
+      exact hb0 v hv
+    refine ⟨?_, rfl, rfl⟩
+    unfold Core
+    show CoreV cfg _ (views s)
+    refine ⟨?_, ?_, rfl, fun hh => (by cases hh)⟩
+    · show QInv [] _
+      apply QInv_nil
+      intro b hb
+      obtain ⟨v, hv, rfl⟩ := List.mem_map.mp hb
+      exact hb0 v hv
+    · intro v hv
+      have p := h.pc v hv
+      exact ⟨p.sub, p.gw, p.w, fun hs => (by rw [hns v hv] at hs; cases hs),
+             (by show v.expected = pendingOf [] v.backlog ++ _; rw [← hq0]; exact p.gh), p.ov⟩
+  · have ho' : s.dev.opened = false := by simpa using ho
+    rw [if_neg ho]
+    exact ⟨h, ho', rfl⟩
+
+
+theorem Core.withAlloc {cfg : Cfg} {s : State} (h : Core cfg s) (a m : Nat) :
+    Core cfg { s with dev := allocate { s.dev with allServices := a, maxLines := m } s.clients } := by
+  unfold Core views
+  have hal := allocate_alloc { s.dev with allServices := a, maxLines := m } s.clients h.alloc
+  have hq := allocate_q { s.dev with allServices := a, maxLines := m } s.clients
+  have hf := allocate_fields { s.dev with allServices := a, maxLines := m } s.clients
+  refine ⟨?_, ?_, hal.1, fun _ => hal.2⟩
+  · show QInv (allocate _ _).q _
+    rw [hq]; exact h.q
+  · intro v hv
+    exact (h.pc v hv).congr_dev hq (fun hh => by rw [hf.1]; exact hh)
+
 /-- second stage, device open: the invariant is re-established whatever `max_lines`/`active` were before -/
-theorem updStage2_ok {cfg : Cfg} {s s1 : State} (req : Option Nat) (h : Core cfg s) (hc : s1.clients = s.clients)
-    (hq : s1.dev.q = s.dev.q) (ho : s1.dev.opened = true)
-    (halloc : s1.dev.free + s1.dev.q.length = s1.dev.allocated) :
-    Core cfg (updStage2 cfg s1 req).1 ∧ Settled cfg (updStage2 cfg s1 req).1 ∧
-      ClientsKept s.clients (updStage2 cfg s1 req).1.clients := by
-  -- the final client list and its views
+theorem updStage2_ok {cfg : Cfg} {s1 : State} (req : Option Nat) (h : Core cfg s1) (ho : s1.dev.opened = true) :
+    ∃ r, updStage2 cfg s1 req = .ok r ∧ Core cfg r.1 ∧ Settled cfg r.1 ∧ Kept s1.clients r.1.clients := by
+  -- the client list after the service loop and its views
   let cl := s1.clients.map (updClient cfg req)
   have hviews : ∀ (cl2 : List Client), (cl2 = cl ∨ cl2 = cl.map (fun c => { c with chnInd := c.chnInd ||| chnNorm })) →
-      cl2.map Client.view = cl.map Client.view ∧ ClientsKept s.clients cl2 := by
+      cl2.map Client.view = cl.map Client.view ∧ Kept s1.clients cl2 := by
     intro cl2 h2
     rcases h2 with rfl | rfl
-    · refine ⟨rfl, updClient cfg req, by rw [← hc], updClient_kept cfg req⟩
+    · exact ⟨rfl, Kept.of_map _ _ (updClient_kept cfg req)⟩
     · refine ⟨by rw [List.map_map]; apply List.map_congr_left; intro c _; rfl, ?_⟩
-      refine ⟨fun c => { updClient cfg req c with chnInd := (updClient cfg req c).chnInd ||| chnNorm }, ?_, ?_⟩
-      · rw [← hc, List.map_map]; rfl
-      · intro c; exact updClient_kept cfg req c
-  -- views of cl in terms of the old views
-  have hmem : ∀ v' ∈ cl.map Client.view, ∃ v ∈ views s, ∃ m, v' = updV cfg m v := by
+      have : cl.map (fun c => { c with chnInd := c.chnInd ||| chnNorm }) =
+          s1.clients.map (fun c => { updClient cfg req c with chnInd := (updClient cfg req c).chnInd ||| chnNorm }) := by
+        rw [List.map_map]; rfl
+      rw [this]
+      exact Kept.of_map _ _ (fun c => updClient_kept cfg req c)
+  have hmem : ∀ v' ∈ cl.map Client.view, ∃ v ∈ views s1, ∃ m, v' = updV cfg m v := by
     intro v' hv'
     obtain ⟨c', hc', rfl⟩ := List.mem_map.mp hv'
     obtain ⟨c, hcm, rfl⟩ := List.mem_map.mp hc'
-    refine ⟨c.view, List.mem_map.mpr ⟨c, by rw [← hc]; exact hcm, rfl⟩, _, updClient_view cfg req c⟩
-  have hbl : (cl.map Client.view).map (·.backlog) = (views s).map (·.backlog) := by
+    exact ⟨c.view, List.mem_map.mpr ⟨c, hcm, rfl⟩, _, updClient_view cfg req c⟩
+  have hbl : (cl.map Client.view).map (·.backlog) = (views s1).map (·.backlog) := by
     unfold views
-    rw [← hc, List.map_map, List.map_map, List.map_map]
+    rw [List.map_map, List.map_map, List.map_map]
     apply List.map_congr_left
     intro c _
-    show (updClient cfg req c).backlog = c.backlog
     exact (updClient_kept cfg req c).1
   have hunion : cl.foldl (fun acc c => if c.state == .forward then acc ||| c.allServices else acc) 0
       = unionV (cl.map Client.view) := devUnion_eq cl
   unfold updStage2
   simp only
-  -- name the pieces
   generalize hcalls : updCalls cfg s1.clients true = calls
   have hcl : s1.clients.map (updClient cfg req) = cl := rfl
   rw [hcl, hunion]
@@ -193,106 +348,81 @@ theorem updStage2_ok {cfg : Cfg} {s s1 : State} (req : Option Nat) (h : Core cfg
   generalize (if (decScanning != s1.dev.scanning) = true then cl.map (fun c => { c with chnInd := c.chnInd ||| chnNorm }) else cl) = cl2 at hcl2 ⊢
   obtain ⟨hv2, hk2⟩ := hcl2
   generalize (if (decScanning != s1.dev.scanning) = true then decScanning else s1.dev.scanning) = scanning
+  -- the state after the service loop (before the queue is adjusted) satisfies Core
+  have hcore2 : Core cfg { s1 with
+      clients := cl2,
+      dev := { s1.dev with active := active, decScanning := decScanning, scanning := scanning },
+      log := s1.log ++ calls } := by
+    unfold Core views
+    show CoreV cfg _ (cl2.map Client.view)
+    rw [hv2]
+    refine ⟨?_, ?_, h.alloc, fun _ => h.depth ho⟩
+    · show QInv s1.dev.q _
+      rw [hbl]; exact h.q
+    · intro v' hv'
+      obtain ⟨v, hv, m, rfl⟩ := hmem v' hv'
+      exact pc_upd m (h.pc v hv) rfl (fun _ => ho)
+  have hgs2 : ∀ v ∈ cl2.map Client.view, v.state = .forward → v.allServices = allOf cfg v.services := by
+    rw [hv2]
+    intro v' hv' hf
+    obtain ⟨v, hv, m, rfl⟩ := hmem v' hv'
+    exact updV_grant cfg m v hf
+  obtain ⟨s3, hr3, hc3, hd3, hk3⟩ := relLost_ok hcore2
+  rw [hr3]
+  simp only
+  obtain ⟨hu3, hP3⟩ := hk3.views
+  have hu3' : unionV (views s3) = unionV (cl.map Client.view) := by
+    unfold views; rw [hu3]; show unionV (cl2.map Client.view) = _; rw [hv2]
+  have hgs3 : ∀ v ∈ views s3, v.state = .forward → v.allServices = allOf cfg v.services :=
+    hP3 (fun st sv a => st = .forward → a = allOf cfg sv) hgs2
+  have hk13 : Kept s1.clients s3.clients := hk2.trans hk3.toKept
+  have ho3 : s3.dev.opened = true := by
+    have := congrArg Dev.opened hd3; simp only [devRest] at this; rw [this]; exact ho
+  have hact3 : s3.dev.active = active := by
+    have := congrArg Dev.active hd3; simp only [devRest] at this; exact this
   by_cases hz : unionV (cl.map Client.view) = 0
   · -- nobody is granted anything: the device is stopped; nobody has queued frames
     have hne : (unionV (cl.map Client.view) != 0) = false := by simp [hz]
     simp only [hne, Bool.false_eq_true, if_false]
-    have hns := unionV_eq_zero.mp hz
-    have hb0 : ∀ v ∈ views s, v.backlog = 0 := by
-      intro v hv
-      by_cases hb : 0 < v.backlog
-      · -- its updated view is subscribed: contradiction
-        obtain ⟨c, hcm, rfl⟩ := List.mem_map.mp hv
-        have hsub := updV_sub (req == some c.id) (h.pc _ hv) hb
-        rw [← updClient_view] at hsub
-        have : (updClient cfg req c).view ∈ cl.map Client.view :=
-          List.mem_map.mpr ⟨_, List.mem_map.mpr ⟨c, by rw [hc]; exact hcm, rfl⟩, rfl⟩
-        rw [hns _ this] at hsub; cases hsub
-      · omega
-    have hq0 : s.dev.q = [] := by
-      apply QInv_all_zero h.q
-      intro b hb
-      obtain ⟨v, hv, rfl⟩ := List.mem_map.mp hb
-      exact hb0 v hv
-    unfold stopAcq
-    simp only [ho, if_true]
-    refine ⟨?_, ?_, hk2⟩
-    · unfold Core views
-      show CoreV cfg _ (cl2.map Client.view)
-      rw [hv2]
-      refine ⟨?_, ?_, rfl, fun hh => (by cases hh), fun hh => (by cases hh)⟩
-      · show QInv [] _
-        apply QInv_nil
-        intro b hb
-        rw [hbl] at hb
-        obtain ⟨v, hv, rfl⟩ := List.mem_map.mp hb
-        exact hb0 v hv
-      · intro v' hv'
-        obtain ⟨v, hv, m, rfl⟩ := hmem v' hv'
-        refine pc_upd m (h.pc v hv) (by show [] = s.dev.q; rw [hq0]) ?_
-        intro hsub; rw [hns _ hv'] at hsub; cases hsub
-    · unfold Settled views
-      show SettledV cfg _ (cl2.map Client.view)
-      rw [hv2]
-      refine ⟨?_, fun hh => (by cases hh), fun hh => (by cases hh)⟩
-      intro v' hv' hf
-      obtain ⟨v, hv, m, rfl⟩ := hmem v' hv'
-      exact updV_grant cfg m v hf
+    have hns : ∀ v ∈ views s3, v.subscribed = false := unionV_eq_zero.mp (by rw [hu3']; exact hz)
+    obtain ⟨hcs, hos, hcls⟩ := hc3.stopped hns
+    refine ⟨_, rfl, hcs, ?_, by rw [hcls]; exact hk13⟩
+    unfold Settled views
+    rw [hcls]
+    exact ⟨hgs3, fun hh => (by rw [hos] at hh; cases hh), fun hh => (by rw [hos] at hh; cases hh),
+           fun hh => (by rw [hos] at hh; cases hh)⟩
   · have hne : (unionV (cl.map Client.view) != 0) = true := by simp [hz]
     simp only [hne, if_true]
     obtain ⟨f1, f2, f3, f4⟩ := allocate_fields
-      { s1.dev with active := active, decScanning := decScanning, scanning := scanning,
-                    allServices := unionV (cl.map Client.view), maxLines := cfg.count active } cl2
-    obtain ⟨a1, a2⟩ := allocate_alloc
-      { s1.dev with active := active, decScanning := decScanning, scanning := scanning,
-                    allServices := unionV (cl.map Client.view), maxLines := cfg.count active } cl2 halloc
-    have aq := allocate_q
-      { s1.dev with active := active, decScanning := decScanning, scanning := scanning,
-                    allServices := unionV (cl.map Client.view), maxLines := cfg.count active } cl2
-    refine ⟨?_, ?_, hk2⟩
-    · unfold Core views
-      show CoreV cfg (allocate _ cl2) (cl2.map Client.view)
-      rw [hv2]
-      refine ⟨?_, ?_, a1, ?_, fun _ => a2⟩
-      · rw [aq, hbl]; show QInv s1.dev.q _; rw [hq]; exact h.q
-      · intro v' hv'
-        obtain ⟨v, hv, m, rfl⟩ := hmem v' hv'
-        refine pc_upd m (h.pc v hv) (by rw [aq]; exact hq) (fun _ => by rw [f1]; exact ho)
-      · intro _; rw [f3, f4]
-    · unfold Settled views
-      show SettledV cfg (allocate _ cl2) (cl2.map Client.view)
-      rw [hv2]
-      refine ⟨?_, fun _ => hz, fun _ => by rw [f2]⟩
-      intro v' hv' hf
-      obtain ⟨v, hv, m, rfl⟩ := hmem v' hv'
-      exact updV_grant cfg m v hf
+      { s3.dev with allServices := unionV (cl.map Client.view), maxLines := cfg.count active } s3.clients
+    refine ⟨_, rfl, hc3.withAlloc _ _, ?_, hk13⟩
+    unfold Settled
+    show SettledV cfg (allocate _ s3.clients) (views s3)
+    refine ⟨hgs3, fun _ => by rw [hu3']; exact hz, fun _ => by rw [f2, hu3'], fun _ => ?_⟩
+    rw [f3, f4]
+    show cfg.count active = cfg.count s3.dev.active
+    rw [hact3]
 
-theorem startAcq_facts (cfg : Cfg) (s : State) (h : s.dev.free + s.dev.q.length = s.dev.allocated) :
-    (startAcq cfg s).clients = s.clients ∧ (startAcq cfg s).dev.q = s.dev.q ∧ (startAcq cfg s).dev.opened = true ∧
-    (startAcq cfg s).dev.free + (startAcq cfg s).dev.q.length = (startAcq cfg s).dev.allocated := by
-  unfold startAcq
-  refine ⟨rfl, ?_, ?_, ?_⟩
-  · show (allocate _ _).q = _; rw [allocate_q]
-  · show (allocate _ _).opened = _; rw [(allocate_fields _ _).1]
-  · exact (allocate_alloc { s.dev with opened := true, apiKnown := true, active := 0, decScanning := cfg.scanning } s.clients h).1
-
-/-- `vbi_proxyd_update_services`: from `Core` alone it re-establishes `Core` and `Settled` -/
+/-- `vbi_proxyd_update_services`: from `Core` alone it succeeds and re-establishes `Core` and `Settled` -/
 theorem updateServices_ok {cfg : Cfg} {s : State} (req : Option Nat) (h : Core cfg s) :
-    Core cfg (updateServices cfg s req).1 ∧ Settled cfg (updateServices cfg s req).1 ∧
-      ClientsKept s.clients (updateServices cfg s req).1.clients := by
+    ∃ r, updateServices cfg s req = .ok r ∧ Core cfg r.1 ∧ Settled cfg r.1 ∧ Kept s.clients r.1.clients := by
   unfold updateServices updStage1
   by_cases hop : s.dev.opened = true
   · -- device already open
     simp only [hop, Bool.not_true, Bool.false_eq_true, if_false]
-    exact updStage2_ok req h rfl rfl hop h.alloc
+    exact updStage2_ok req h hop
   · have hcl : s.dev.opened = false := by simpa using hop
-    obtain ⟨hb0, hq0⟩ := h.closed_empty hcl
     simp only [hcl, Bool.not_false, if_true]
+    have hso : (startAcq cfg s).dev.opened = true := by
+      unfold startAcq
+      show (allocate _ _).opened = true
+      rw [(allocate_fields _ _).1]
+    have hsc : (startAcq cfg s).clients = s.clients := rfl
     by_cases hany : s.clients.any (fun c => anyServices c.services) = true
-    · simp only [hany, if_true]
-      obtain ⟨g1, g2, g3, g4⟩ := startAcq_facts cfg s h.alloc
-      simp only [g3, Bool.not_true, Bool.false_eq_true, if_false]
-      exact updStage2_ok req h g1 g2 g3 g4
+    · simp only [hany, if_true, hso, Bool.not_true, Bool.false_eq_true, if_false]
+      have := updStage2_ok req h.started hso
+      rw [hsc] at this
+      exact this
     · have hnone : ∀ c ∈ s.clients, anyServices c.services = false := by
         intro c hc
         cases hx : anyServices c.services with
@@ -300,9 +430,17 @@ theorem updateServices_ok {cfg : Cfg} {s : State} (req : Option Nat) (h : Core c
         | true => exact absurd (List.any_eq_true.mpr ⟨c, hc, hx⟩) hany
       have hany' : s.clients.any (fun c => anyServices c.services) = false := by simpa using hany
       -- nobody asks for anything: the device stays closed; every grant is 0 = allOf (no requests)
+      have hnsub : ∀ v ∈ views s, v.subscribed = false := by
+        intro v hv
+        cases hs : v.subscribed with
+        | false => rfl
+        | true =>
+          have := (h.pc v hv).so hs
+          rw [hcl] at this; cases this
       have hset : ∀ (d : Dev), d.opened = false → SettledV cfg d (views s) := by
         intro d hd
-        refine ⟨?_, fun hh => (by rw [hd] at hh; cases hh), fun hh => (by rw [hd] at hh; cases hh)⟩
+        refine ⟨?_, fun hh => (by rw [hd] at hh; cases hh), fun hh => (by rw [hd] at hh; cases hh),
+                fun hh => (by rw [hd] at hh; cases hh)⟩
         intro v hv hf
         obtain ⟨c, hcm, rfl⟩ := List.mem_map.mp hv
         have hz : allOf cfg c.view.services = 0 := allOf_zero cfg _ (hnone c hcm)
@@ -311,30 +449,15 @@ theorem updateServices_ok {cfg : Cfg} {s : State} (req : Option Nat) (h : Core c
         · exact ha
         · have hsub : c.view.subscribed = true := by
             unfold CV.subscribed; rw [hf]; simpa using ha
-          have := (h.pc _ hv).so hsub
-          rw [hcl] at this; cases this
+          rw [hnsub _ hv] at hsub; cases hsub
       simp only [hany', Bool.false_eq_true, if_false]
       by_cases hapi : s.dev.apiKnown = true
       · simp only [hapi, Bool.not_true, Bool.false_eq_true, if_false, hcl, Bool.not_false, if_true]
-        exact ⟨h, hset _ hcl, ClientsKept.refl _⟩
+        exact ⟨_, rfl, h, hset _ hcl, Kept.refl _⟩
       · have hapi' : s.dev.apiKnown = false := by simpa using hapi
-        obtain ⟨g1, g2, g3, g4⟩ := startAcq_facts cfg s h.alloc
-        have hst : (stopAcq (startAcq cfg s)).dev.opened = false := by
-          unfold stopAcq; rw [g3]; rfl
-        have hstc : (stopAcq (startAcq cfg s)).clients = s.clients := by
-          unfold stopAcq; rw [g3]; exact g1
-        have hstq : (stopAcq (startAcq cfg s)).dev.q = [] := by
-          unfold stopAcq; rw [g3]; rfl
-        have hsta : (stopAcq (startAcq cfg s)).dev.free = 0 ∧ (stopAcq (startAcq cfg s)).dev.allocated = 0 := by
-          unfold stopAcq; rw [g3]; exact ⟨rfl, rfl⟩
-        simp only [hapi', Bool.not_false, if_true, hst]
-        refine ⟨?_, ?_, by rw [hstc]; exact ClientsKept.refl _⟩
-        · unfold Core views; rw [hstc]
-          refine ⟨?_, ?_, ?_, fun hh => (by rw [hst] at hh; cases hh), fun hh => (by rw [hst] at hh; cases hh)⟩
-          · rw [hstq, ← hq0]; exact h.q
-          · intro v hv
-            exact (h.pc v hv).congr_dev (by rw [hstq, hq0]) (fun hh => by rw [hcl] at hh; cases hh)
-          · rw [hstq, hsta.1, hsta.2]; rfl
-        · unfold Settled views; rw [hstc]; exact hset _ hst
+        obtain ⟨hcs, hos, hcls⟩ := (h.started (cfg := cfg)).stopped (by rw [show views (startAcq cfg s) = views s from rfl]; exact hnsub)
+        simp only [hapi', Bool.not_false, if_true, hos]
+        refine ⟨_, rfl, hcs, ?_, by rw [hcls]; exact Kept.refl _⟩
+        unfold Settled views; rw [hcls]; exact hset _ hos
 
 end Zvbi.ProxyQ
